@@ -3,7 +3,7 @@ import vlib, common
 RULE = ("logs of 1..30 (quick) / ..100 events: every event queried at its reported version, a random later version, the current version and a version beyond it; each answer marshalled to JSON and back, "
         "fields compared, and the decoded proof verified against the right and three wrong (digest, snapshot) combinations vs the original object; 3n incremental answers likewise; every snapshot and a signed batch "
         "through Encode/Decode; gossip messages encoded back-to-back then decoded; 400 synthetic audit-path keys with indexes up to 2^63-1 through Serialize/ParseAuditPath and through the Coq codec. "
-        "clientv: genuine membership/incremental/insertion answers of logs up to >1040 events and bulks up to 1000 snapshots through the real client (HTTP body, JSON, To*Proof) must verify / come back unchanged. distinct = (kind, case, indices); non-trivial = existence answer / multi-entry path / index >= 2^32 / non-empty payload")
+        "cmdwire: add commands of 1..4096 digests and FSM states with boundary values through encode/decode. clientv: genuine membership/incremental/insertion answers of logs up to >1040 events and bulks up to 1000 snapshots through the real client (HTTP body, JSON, To*Proof) must verify / come back unchanged. distinct = (kind, case, indices); non-trivial = existence answer / multi-entry path / index >= 2^32 / non-empty payload")
 
 
 def run(v, tier, seed, replay):
@@ -20,8 +20,18 @@ def run(v, tier, seed, replay):
     finally:
         s.cleanup()
     common.client_entry_points(v, "C13", tier, seed, ('C13',))
+    # binary encodings of the consensus layer (needs the RocksDB-linked build of package consensus)
+    s3, res3 = common.harness(v, "C13", "node", "cmdwire", tier, seed, need_rocks=True)
+    try:
+        st = res3.get("stats", {})
+        v.coverage["evaluations"] = v.coverage.get("evaluations", 0) + st.get("evaluations", 0)
+        v.coverage.setdefault("distribution", {}).update({"cmdwire_" + k: n for k, n in st.items()})
+        for viol in (res3.get("violations") or []):
+            v.violation(viol["signature"], viol["what"], viol["replay"])
+    finally:
+        s3.cleanup()
     v.coverage["trusted_base"] = vlib.TRUSTED_COMMON + [
         "Coq's DecimalString/DecimalN library lemmas for the decimal codec; strconv.Atoi and fmt %d are modelled by it and compared on 400 keys per run",
         "encoding/json, go-msgpack (gossip messages) and base64 are third-party codecs: exercised by round trips, not modelled",
-        "replicated commands (consensus/command.go, msgpack) are exercised by the node-level checks (C05/C06), not here"]
+        "replicated commands and the persisted FSM state (consensus/command.go, codec.go: type byte + go-msgpack) are round-tripped for bulks of 1..4096 (thorough: 100000) digests incl. digests made of msgpack marker bytes (cmdwire); go-msgpack itself is not modelled"]
     v.assumptions = ["position indexes below 2^63 (strconv.Atoi is a signed parse)"]
